@@ -787,6 +787,10 @@ pub struct Case {
     /// is confidential (with a surjection proof): it takes no part in the balance but its proof must hold
     #[serde(default)]
     pub zero_conf_asset_output: bool,
+    /// Some(n): the verifying transaction is the n-th real (transaction, spent outputs) vector of the repository
+    /// (tests, examples, extracted blinded PSETs) instead of one blinded in this run
+    #[serde(default)]
+    pub corpus_vec: Option<u32>,
 }
 
 pub struct CtWorld;
@@ -944,6 +948,61 @@ fn explicit_case(ctx: &mut Ctx, e: &ExplicitSpec) {
     }
 }
 
+/// One tamper per delivery on a real verifying transaction of the repository's vectors.
+fn corpus_tamper(ctx: &mut Ctx, case: &Case, n: u32) {
+    let secp = secp();
+    let c = crate::corpus::get();
+    if c.verifying.is_empty() {
+        return;
+    }
+    let k = n as usize % c.verifying.len();
+    let (txb, spentb) = &c.verifying[k];
+    ctx.sig_n("corpus_vec", k as u64);
+    ctx.ev("ct.corpus", k as u64);
+    let origin = c.index.verifying[k].origin.clone();
+    let Some(Ok(rx)) = ctx.call("deserialize<Transaction>", txb.len(), || elements::encode::deserialize::<Transaction>(txb)) else {
+        ctx.violate("C05.base", "corpus-decode", format!("repository vector {} no longer decodes", origin));
+        return;
+    };
+    let spent: Vec<TxOut> = spentb.iter().filter_map(|b| elements::encode::deserialize::<TxOut>(b).ok()).collect();
+    if spent.len() != spentb.len() {
+        ctx.violate("C05.base", "corpus-decode", format!("spent outputs of repository vector {} no longer decode", origin));
+        return;
+    }
+    let base = ctx.call("verify_tx_amt_proofs", 0, || rx.verify_tx_amt_proofs(secp, &spent));
+    let Some(base) = base else { return };
+    if !ctx.check(base.is_ok(), "C05.base", "corpus", || format!("repository vector {} (verifies on the unchanged tree) is rejected: {:?}", origin, base)) {
+        return;
+    }
+    ctx.nontrivial = true;
+    let domain_size = rx.input.iter().map(|i| 1 + (!i.asset_issuance.amount.is_null()) as usize + (!i.asset_issuance.inflation_keys.is_null()) as usize).sum();
+    for t in &case.tampers {
+        let mut ttx = rx.clone();
+        let mut tspent = spent.clone();
+        if !apply_tamper(t, &mut ttx, &mut tspent, domain_size) {
+            ctx.probe("tamper_not_applicable");
+            continue;
+        }
+        if ttx == rx && tspent == spent {
+            continue;
+        }
+        let class = t.class();
+        ctx.fault(&format!("tamper.{}", class), 1);
+        let Some(arrived) = hop(ctx, &ttx, &IoPlan::perfect(), &IoPlan::perfect()) else {
+            ctx.probe("tamper_rejected_at_decode");
+            continue;
+        };
+        let Some(r) = ctx.call("verify_tx_amt_proofs", 0, || arrived.verify_tx_amt_proofs(secp, &tspent)) else { continue };
+        ctx.ev("tamper.verify", r.is_ok() as u64);
+        if class == "prevout.len" {
+            ctx.check(matches!(r, Err(elements::VerificationError::UtxoInputLenMismatch)), "C05.prevout.len", "wrong-error", || format!("spent-output list of wrong length: verify returned {:?}", r));
+        } else {
+            ctx.check(r.is_err(), &format!("C05.tamper.{}", class), &format!("{:?}", t).split(' ').next().unwrap_or("?").to_string(), || format!("tampered repository vector {} verifies: {:?}", origin, t));
+        }
+    }
+    ctx.ev("ct.end", ctx.steps);
+}
+
 impl World for CtWorld {
     type Case = Case;
     fn name(&self) -> &'static str {
@@ -960,9 +1019,15 @@ impl World for CtWorld {
             explicit: None,
             hostile: false,
             zero_conf_asset_output: false,
+            corpus_vec: None,
         };
         match scenario {
             "blind" => {}
+            "tamper-corpus" => {
+                let k = p.urange(6, 14);
+                case.tampers = (0..k).map(|_| Tamper::draw(p)).collect();
+                case.corpus_vec = Some(p.u32());
+            }
             "tamper" => {
                 let k = p.urange(3, 8);
                 case.tampers = (0..k).map(|_| Tamper::draw(p)).collect();
@@ -1004,6 +1069,10 @@ impl World for CtWorld {
             return;
         }
         let secp = secp();
+        if let Some(n) = case.corpus_vec {
+            corpus_tamper(ctx, case, n);
+            return;
+        }
         let w = build(&case.spec);
         ctx.sig_n("n_in", w.tx.input.len() as u64);
         ctx.sig_n("n_out", w.tx.output.len() as u64);
